@@ -207,7 +207,7 @@ def run(sc, tape):
         probes['backend_' + name] = 1
     return {
         'violation': v,
-        'digest': C.digest_of(sc['backend'], sc['ops'], sc['dimsets'], sc['fault'], faults),
+        'digest': C.digest_of(sc['backend'], sc['ops'], sc['dimsets'], sc['fault'], faults, state['n'], runner.n_compared if runner else -1),
         'nontrivial': nontrivial,
         'steps': len(sc['ops']),
         'sim_time': 0.25 * len(sc['ops']),
